@@ -245,7 +245,16 @@ def run_case(ctx, g, rng):
             w0["grown_while_serving"] = True
             S.counters["wl:converters-grown-while-serving"] += 1
         q, exp, direction, inside, configured, cls, uris = make_query()
-        o = call(graph.query, q, processor=processor)
+        spelling = rng.choice(["text", "text", "prepared"])
+        S.counters[f"wl:graph-query-handed-over-as:{spelling}"] += 1
+        if spelling == "prepared":
+            # Graph.query and the processor accept `str | Query`: the same query, parsed and translated by the caller
+            from rdflib.plugins.sparql import prepareQuery
+
+            pq = call(prepareQuery, q)
+            o = call(graph.query, pq[1], processor=processor) if pq[0] == "ret" else call(graph.query, q, processor=processor)
+        else:
+            o = call(graph.query, q, processor=processor)
         if o[0] == "raise":
             evaluated("mapping:graph")
             violation(["C18"], "mapping:graph", "query-raises", query=q, observed=o[1], **w0)
